@@ -35,6 +35,7 @@ except Exception:  # pragma: no cover
 from pbt.worker import Worker
 
 VERIF = os.environ.get("VERIF_ROOT", "/verif")
+SHRINK_BUDGET = int(os.environ.get("VERIF_SHRINK_CALLS", "60"))
 INCONCLUSIVE = {"inconclusive": True}
 
 
@@ -156,6 +157,12 @@ def _shard(args):
             @given(prop.strategy(tier, switches))
             def run(case):
                 st = null if state["seen"] else stats
+                if state["seen"]:
+                    # shrinking budget: a bounded number of re-executions after the first failure, so that a failing
+                    # run reports within seconds-minutes; candidates beyond the budget count as "not failing"
+                    state["shrink_calls"] = state.get("shrink_calls", 0) + 1
+                    if state["shrink_calls"] > SHRINK_BUDGET:
+                        return
                 if not state["seen"]:
                     stats.evaluations += 1
                 f = prop.check(worker, case, st)
